@@ -114,6 +114,7 @@ var elems = []elem{
 	{"vt.MyInt", "vt.MyInt(5)", "vt.MyInt(6)", "vt.MyInt(0)", false},
 	{"vt.MyString", `vt.MyString("k")`, `vt.MyString("l")`, `vt.MyString("")`, false},
 	{"vt.Octal", "vt.Octal(420)", "vt.Octal(8)", "vt.Octal(0)", false},
+	{"vt.MyUint8", "vt.MyUint8(7)", "vt.MyUint8(255)", "vt.MyUint8(0)", false},
 	{"vt.Inner", "vt.Inner{X: 1, Y: \"y\"}", "vt.Inner{X: 2}", "vt.Inner{}", true},
 	{"$L.LocalStruct", "$L.LocalStruct{A: 1}", "$L.LocalStruct{B: \"b\"}", "$L.LocalStruct{}", true},
 }
@@ -207,6 +208,28 @@ func values(thorough bool) []Val {
 	add("vt.Display", "vt.Display{L: 1, C: 404, F: 200, N: \"x\", R: 0.25, S: true, O: 420}")
 	add("vt.Display", "vt.Display{PL: ptr(vt.Level(2)), LS: []vt.Level{0, 1, 2}, M: map[vt.Level]vt.Octal{1: 420, 2: 8}}")
 	add("map[vt.Code]vt.Label", "map[vt.Code]vt.Label{404: \"nf\", -1: \"\"}")
+	// deep nesting: zero-valued structs as slice elements / map values / pointees / array elements at every
+	// depth from 2 to 12 below the rendered root (wrapped alternately in slices, maps, arrays and a pointer)
+	{
+		typ := "vt.Mid"
+		expr := "vt.Mid{Leaves: []vt.Leaf{{N: 1}, {}}, ByName: map[string]vt.Leaf{\"z\": {}, \"a\": {N: 2}}, P: &vt.Leaf{}, Arr: [2]vt.Leaf{{}, {N: 3}}}"
+		add(typ, expr)
+		for d := 1; d <= 10; d++ {
+			switch d % 3 {
+			case 1:
+				expr = "[]" + typ + "{" + expr + "}"
+				typ = "[]" + typ
+			case 2:
+				expr = "map[string]" + typ + "{\"k\": " + expr + "}"
+				typ = "map[string]" + typ
+			default:
+				expr = "[1]" + typ + "{" + expr + "}"
+				typ = "[1]" + typ
+			}
+			add(typ, expr)
+			add("*"+typ, "ptr("+expr+")")
+		}
+	}
 	// one value holding types with the same package name AND type name from two different packages
 	add("cvt.Twin", "cvt.Twin{Mine: cvt.Inner{Y: 1}, Theirs: vt.Inner{X: 2}, N: cvt.MyInt(3), M: vt.MyInt(4)}")
 	add("cvt.Twin", "cvt.Twin{Theirs: vt.Inner{X: 2}, Mine: cvt.Inner{Y: 1}, P: &cvt.Inner{Y: 5}, Q: &vt.Inner{X: 6}}")
@@ -267,6 +290,16 @@ func (r Ratio) String() string  { return fmt.Sprintf("%.0f%%", float64(r)*100) }
 func (s Switch) String() string { if s { return "on" }; return "off" }
 func (o Octal) String() string  { return fmt.Sprintf("%o", uint16(o)) }
 func (o Octal) GoString() string { return "octal" }
+
+// nesting chain for deep values
+type Leaf struct{ N int }
+
+type Mid struct {
+	Leaves []Leaf
+	ByName map[string]Leaf
+	P      *Leaf
+	Arr    [2]Leaf
+}
 
 type Display struct {
 	L  Level
@@ -756,7 +789,7 @@ func replay(c *core.Ctx, raw json.RawMessage) {
 func init() {
 	core.Register(&core.Prop{
 		ID: "C10", Level: "model_checking", Run: run, Replay: replay, Shards: 4,
-		Rule:        "value model: every listed boundary value of every scalar type (bool, all int/uint kinds incl. uintptr, runes, float32/64 edge values, strings with quotes/newlines/backquotes/non-UTF-8/NUL, and every string of <=2 (3) characters over 16 special characters: quote, backslash, backquote, LF, CR, TAB, NUL, DEL, invalid byte, BOM, U+2028, NBSP, apostrophe, non-ASCII, astral), named scalars of two foreign packages and of the target package, named scalars with String/Error/Format/GoString methods (display text differs from the literal), a one-level pointer to each of them (and nil pointers); for 9 element types: nil/empty/1/3-element slices, arrays, pointers, pointers to slices, maps under 6 key types (string, int, bool, named string, array, struct) incl. two insertion orders of the same map; structs with zero and non-zero members of every field kind (pointer to zero struct, zero struct as map value / slice element, embedded, anonymous, cross-package, and values mixing types that share package name and type name across two packages); depth-2 containers. Each is rendered by snippet.Value in a compiled program, type-checked as `var got T = <text>` in the target package and compared at run time with the original (nil == empty); same text when rendered twice and for both insertion orders; the whole list is rendered in 4 sessions (files) of one process - same target, same target again, another target, the first target again - and sessions for the same target must agree in texts and registered imports; built with the map-order seam the sessions run under ascending / descending / rotated iteration of every map (reflect.MapKeys included). Non-trivial = composite/pointer values; states = distinct type shapes",
+		Rule:        "value model: every listed boundary value of every scalar type (bool, all int/uint kinds incl. uintptr, runes, float32/64 edge values, strings with quotes/newlines/backquotes/non-UTF-8/NUL, and every string of <=2 (3) characters over 16 special characters: quote, backslash, backquote, LF, CR, TAB, NUL, DEL, invalid byte, BOM, U+2028, NBSP, apostrophe, non-ASCII, astral), named scalars of two foreign packages and of the target package, named scalars with String/Error/Format/GoString methods (display text differs from the literal), a one-level pointer to each of them (and nil pointers); for 9 element types: nil/empty/1/3-element slices, arrays, pointers, pointers to slices, maps under 6 key types (string, int, bool, named string, array, struct) incl. two insertion orders of the same map; structs with zero and non-zero members of every field kind (pointer to zero struct, zero struct as map value / slice element, embedded, anonymous, cross-package, and values mixing types that share package name and type name across two packages); depth-2 containers; a nesting chain that puts zero-valued structs as element / map value / pointee / array element at every depth from 2 to 12. Each is rendered by snippet.Value in a compiled program, type-checked as `var got T = <text>` in the target package and compared at run time with the original (nil == empty); same text when rendered twice and for both insertion orders; the whole list is rendered in 4 sessions (files) of one process - same target, same target again, another target, the first target again - and sessions for the same target must agree in texts and registered imports; built with the map-order seam the sessions run under ascending / descending / rotated iteration of every map (reflect.MapKeys included). Non-trivial = composite/pointer values; states = distinct type shapes",
 		Assumptions: []string{"NaN/Inf, complex numbers, pointer map keys, func/chan/interface-typed members and unexported fields are outside the stated domain"},
 	})
 }
